@@ -56,6 +56,13 @@ func newStringExtractor(position stringExtractorPosition, patternParts []string,
 	case len(targetWildcard) == 0:
 		return emptyExtractor, fmt.Errorf("patternParts[1] must not be empty")
 	case targetWildcard == "*":
+		// without a char table the label can only be delimited by the boundary on its far side
+		if position == extractFromStart && len(rightBoundary) == 0 {
+			return emptyExtractor, fmt.Errorf("patternParts[2] must not be empty for '*' at start")
+		}
+		if position == extractFromEnd && len(leftBoundary) == 0 {
+			return emptyExtractor, fmt.Errorf("patternParts[0] must not be empty for '*' at end")
+		}
 		validCharTable = nil
 	case len(targetWildcard) < 2 || targetWildcard[0] != '[' || targetWildcard[len(targetWildcard)-1] != ']':
 		return emptyExtractor, fmt.Errorf("patternParts[1] must be '*' or '[...]'")
